@@ -29,6 +29,10 @@ pub struct DocSpec {
     /// written as `--- <text>` on the marker line and always closed with `...` (root block scalars)
     #[serde(default)]
     pub inline: bool,
+    /// directive lines (`%TAG ...`) in front of the document: written after a `...` that closes the
+    /// previous document and followed by an explicit `---`
+    #[serde(default)]
+    pub directives: String,
 }
 
 #[derive(Clone, Debug, Serialize, Deserialize)]
@@ -44,6 +48,22 @@ pub struct StreamCase {
 pub fn build_stream(c: &StreamCase) -> String {
     let mut s = String::new();
     for (i, d) in c.docs.iter().enumerate() {
+        if !d.directives.is_empty() {
+            // directives need the previous document to be closed explicitly
+            if i > 0 && !(c.docs[i - 1].end_marker || c.docs[i - 1].inline) {
+                s.push_str("...\n");
+            }
+            s.push_str(&d.directives);
+            s.push_str("---\n");
+            s.push_str(&d.text);
+            if !d.text.ends_with('\n') {
+                s.push('\n');
+            }
+            if d.end_marker {
+                s.push_str("...\n");
+            }
+            continue;
+        }
         if d.inline {
             s.push_str("--- ");
             s.push_str(&d.text);
@@ -129,6 +149,9 @@ fn alone<T: DeserializeOwned + Debug>(text: &str, opts: &OptVec) -> Outcome {
 
 /// the document as a text of its own, in the same form in which it appears in the stream
 fn alone_text(d: &DocSpec) -> String {
+    if !d.directives.is_empty() {
+        return format!("{}---\n{}", d.directives, d.text);
+    }
     if d.inline {
         let mut t = format!("--- {}", d.text);
         if !t.ends_with('\n') {
@@ -638,6 +661,7 @@ pub fn kinds_for(target: Target) -> Vec<DocSpec> {
         alias_of_earlier: false,
         implicit_start: false,
         inline: false,
+        directives: String::new(),
     };
     let mut v = vec![
         d("empty", ""),
@@ -730,6 +754,11 @@ pub fn kinds_for(target: Target) -> Vec<DocSpec> {
             // 60 aliases of one anchor: under every per-document limit (the alias/anchor ratio is only
             // looked at from 100 aliases on), two such documents together are over it
             d("many-aliases", &format!("p: &x 1\nq: [{}]\n", vec!["*x"; 60].join(", "))),
+            // tag directives end with their document
+            DocSpec { directives: "%TAG !e! tag:example.com,2000:\n".into(), ..d("tag-directive-used", "v: !e!x 1\n") },
+            d("tag-handle-undeclared", "v: !e!x 2\n"),
+            DocSpec { directives: "%TAG !! tag:example.com,2000:\n".into(), ..d("secondary-handle-redefined", "v: !!str 3\n") },
+            d("secondary-tag-str", "v: !!str 4\n"),
         ],
     };
     v.extend(specific);
